@@ -99,6 +99,14 @@ def base_cases(tier):
             for signer in ('digest', 'hmac', 'ecdsa', 'ed'):
                 for toks in (['a'], ['a', 'P', 'K']) if kind == 'I' else (['a'],):
                     yield {'k': kind, 'name': toks, 'plen': 5, 'signer': signer, 'it': 0, 'pv': pv}
+    # the signer object was used for another packet before (an application keeps its signer; the keychain hands out cached ones)
+    for kind in ('I', 'D'):
+        for signer in ('digest', 'hmac', 'ed', 'rsa', 'ecdsa'):
+            yield {'k': kind, 'name': ['a'], 'plen': 5, 'signer': signer, 'it': 0, 'reuse': True}
+    # a name long enough for a three-octet Name length
+    for signer in ('digest', 'hmac', 'ecdsa'):
+        yield {'k': 'I', 'name': ['L', 'K'], 'plen': 5, 'signer': signer, 'it': 0}
+        yield {'k': 'D', 'name': ['L', 'K'], 'plen': 5, 'signer': signer, 'it': 0}
     # the other curves of the ECDSA signer
     for kind in ('I', 'D'):
         for curve in ('224', '384', '521'):
@@ -138,6 +146,10 @@ def build(case):
     inner = c01.make_signer(case['signer'], kind == 'I') if case['signer'] != 'none' else None
     rec = Recorder(inner) if inner is not None else None
     with owned_random(('c02', case['it'], plen, kind)):
+        if case.get('reuse') and inner is not None:
+            enc.make_data('/earlier/packet', enc.MetaInfo(), b'signed before with the same signer object', inner)
+            if kind == 'I':
+                enc.make_interest('/earlier/interest', enc.InterestParam(nonce=1), b'x', inner)
         name_in = c01.name_repr(toks, 'list')
         pv = case.get('pv', 0)
         if kind == 'I':
